@@ -188,3 +188,432 @@ def snapshot(client):
 
 def exc_name(e):
     return type(e).__name__
+
+
+# ================================================================================================
+# Encoding for the Gallina model
+# ================================================================================================
+from engine import coq_str, coq_list, coq_bool, coq_z, coq_nat, coq_opt, coq_pyval  # noqa: E402
+
+EXC = {
+    "TypeError": "TypeError", "KeyError": "KeyError", "ValueError": "ValueError", "AttributeError": "AttributeError",
+    "IndexError": "IndexError",
+    "UnsupportedAlgorithm": "E_UnsupportedAlgorithm", "MissingRequiredAttribute": "E_MissingRequiredAttribute",
+    "IssuerMismatch": "E_IssuerMismatch", "NotForMe": "E_NotForMe", "VerificationError": "E_VerificationError",
+    "EXPError": "E_EXPError", "IATError": "E_IATError", "AtHashError": "E_AtHashError", "CHashError": "E_CHashError",
+    "MissingSigningKey": "E_MissingSigningKey", "BadSignature": "E_BadSignature",
+    "NoSuitableSigningKeys": "E_NoSuitableSigningKeys", "SignerAlgError": "E_SignerAlgError",
+    "DecodeError": "E_DecodeError", "ParameterError": "E_ParameterError", "IssuerNotFound": "E_IssuerNotFound",
+    "ResponseError": "E_ResponseError", "OidcServiceError": "E_OidcServiceError",
+}
+
+
+def coq_exc(name):
+    return "(Err %s)" % EXC.get(name, "(Refused 99)")
+
+
+def coq_dict(d):
+    return coq_list(["(%s, %s)" % (coq_str(k), coq_pyval(v)) for k, v in d.items()], "(pystr * pyval)")
+
+
+def coq_ostr(x):
+    return coq_opt(x, coq_str, "pystr")
+
+
+def jar_of(keyjar):
+    """Describe a real KeyJar for the model: (owner, kty, kid, key number). Keys are identified by content."""
+    ks = keys()
+    out = []
+    for owner in keyjar.owners():
+        for k in keyjar.get_issuer_keys(owner):
+            num = None
+            for name, mine in ks.items():
+                if k.kty != mine.kty:
+                    continue
+                if k.kty == "oct":
+                    if k.key == mine.key:
+                        num = KEYNUM[name]
+                else:
+                    if k.serialize(private=False).get("n", k.serialize(private=False).get("x")) == \
+                            mine.serialize(private=False).get("n", mine.serialize(private=False).get("x")):
+                        num = KEYNUM[name]
+            if num is None:
+                num = 99
+            out.append((owner, k.kty, k.kid or "", num))
+    return out
+
+
+def coq_jar(j):
+    kt = {"RSA": "KRsa", "EC": "KEc", "oct": "KOct"}
+    return coq_list(["(mkJE %s %s %s %s)" % (coq_str(o), kt[t], coq_str(kid), coq_nat(n)) for o, t, kid, n in j],
+                    "jar_entry")
+
+
+def coq_kwargs(kw, jar):
+    return "(mkKw %s %s %s %s %s %s %s %s %s %s)" % (
+        coq_ostr(kw.get("iss")), coq_ostr(kw.get("client_id")), coq_ostr(kw.get("sigalg")),
+        coq_ostr(kw.get("allowed_sign_alg")), coq_bool(kw.get("allow_sign_alg_none", False)),
+        coq_opt(kw.get("skew"), coq_z, "Z"), coq_opt(kw.get("nonce_storage_time"), coq_z, "Z"),
+        coq_bool(kw.get("allow_missing_kid", False)), coq_ostr(kw.get("nonce")), coq_jar(jar))
+
+
+def signer_num(tok):
+    """Which key (number) produced a signature that is valid for exactly this header and payload."""
+    if tok.get("sigfault") or tok["signer"] is None:
+        return None
+    return KEYNUM[tok["signer"]]
+
+
+def coq_token(tok):
+    return "(mkTok %s %s %s %s)" % (coq_str(tok["alg"]), coq_ostr(tok["kid"]),
+                                    coq_opt(signer_num(tok), coq_nat, "nat"), coq_dict(tok["claims"]))
+
+
+def coq_hash_table(values):
+    rows = []
+    for v in values:
+        for bits in (256, 384, 512):
+            rows.append("(%s, %s, %s)" % (coq_str(str(bits)), coq_str(v), coq_str(left_hash_ref(v, bits))))
+    return coq_list(rows, "(pystr * pystr * pystr)")
+
+
+def coq_res_dict(out):
+    if out[0] == "ok":
+        return "(Ok %s)" % coq_dict(out[1])
+    return coq_exc(out[1])
+
+
+def modellable(v):
+    """JSON value inside the pyval universe (no floats)."""
+    if isinstance(v, float):
+        return False
+    if isinstance(v, (list, tuple)):
+        return all(modellable(x) for x in v)
+    if isinstance(v, dict):
+        return all(isinstance(k, str) and modellable(x) for k, x in v.items())
+    return v is None or isinstance(v, (bool, int, str))
+
+
+def mint_tok(tok):
+    return mint(tok["alg"], tok["signer"], tok["claims"], tok["kid"], tok.get("sigfault"))
+
+
+# ================================================================================================
+# C08: case generation (genuine token, exhaustive single-fault matrix, settings) and the oracle
+# ================================================================================================
+T0 = 1_700_000_000
+STORAGE = 4 * 3600
+NONCE, OTHER_NONCE = "@NONCE@", "@OTHER-NONCE@"      # resolved when the flow is started
+PATHS = ("msg_authz", "msg_token", "svc_authz", "svc_token")
+
+SETTINGS = [dict(sigalg=sa, reg=reg, allow_none=an, skew=sk, allow_missing_kid=amk)
+            for sa in (None, "RS256", "ES256", "HS256", "none")
+            for reg in ("dynamic", "static")
+            for an in (False, True)
+            for sk in (0, 10)
+            for amk in (False, True)]
+
+
+def base_alg(setting):
+    sa = setting["sigalg"] if setting["reg"] == "dynamic" else None
+    if sa == "ES256":
+        return "ES256", "iss_ec", "e1"
+    if sa == "HS256":
+        return "HS256", "secret", None
+    if sa == "none":
+        return "none", None, None
+    return "RS256", "iss_rsa1", "r1"
+
+
+def set_hashes(case):
+    """(re)compute c_hash / at_hash of the genuine token for its current alg and the delivered code / token"""
+    tok, ctx = case["tok"], case["ctx"]
+    alg = tok["alg"]
+    bits = int(alg[-3:]) if alg[-3:] in ("256", "384", "512") else 256
+    for claim, val in (("c_hash", ctx.get("code")), ("at_hash", ctx.get("access_token"))):
+        if val and case["path"] in ("msg_authz", "svc_authz"):
+            tok["claims"][claim] = left_hash_ref(val, bits)
+        else:
+            tok["claims"].pop(claim, None)
+
+
+def base_case(path, setting, delivery, now=T0):
+    """delivery: which of code / access_token accompany the ID token: 'code', 'code+token', 'token', 'alone'"""
+    alg, signer, kid = base_alg(setting)
+    ctx = {"code": "Co-%s" % delivery if "code" in delivery else None,
+           "access_token": "At-%s" % delivery if "token" in delivery else None,
+           "forged": None, "resp_iss": None, "resp_client_id": None, "extra": {}}
+    if path in ("msg_token", "svc_token"):
+        ctx["code"] = None
+        ctx["access_token"] = "At-tokenendpoint"
+    case = {"path": path, "cfg": dict(setting), "now": now, "ctx": ctx, "fault": "none",
+            "tok": {"alg": alg, "kid": kid, "signer": signer, "sigfault": None,
+                    "claims": {"iss": ISS, "sub": "diana", "aud": [CLIENT_ID], "exp": now + 300, "iat": now - 5,
+                               "nonce": NONCE}}}
+    set_hashes(case)
+    return case
+
+
+RETYPES = [("str", "x-retyped"), ("int", 7), ("list", ["x-retyped"]), ("bool", True), ("false", False), ("null", None),
+           ("dict", {"k": "v"}), ("empty-str", ""), ("empty-list", []), ("list-blank", [""]), ("list-null", [None]),
+           ("int0", 0), ("list-int", [7]), ("numstr", "12"), ("list2", ["a", "b"])]
+RETYPED_CLAIMS = ["iss", "sub", "aud", "exp", "iat", "nonce", "azp", "c_hash", "at_hash", "auth_time", "amr",
+                  "email_verified", "sid", "foo"]
+
+
+def _setc(name, value):
+    def f(case):
+        case["tok"]["claims"][name] = value
+    return f
+
+
+def _delc(name):
+    def f(case):
+        case["tok"]["claims"].pop(name, None)
+    return f
+
+
+def _resign(alg, signer, kid, rehash=True):
+    def f(case):
+        case["tok"].update(alg=alg, signer=signer, kid=kid)
+        if rehash:
+            set_hashes(case)
+    return f
+
+
+def fault_matrix(path):
+    """The single-fault matrix: list of (name, function mutating a fresh base case)."""
+    F = []
+    # --- each claim removed / retyped
+    for c in RETYPED_CLAIMS:
+        F.append(("claim-removed:" + c, _delc(c)))
+        for tname, val in RETYPES:
+            F.append(("claim-retyped:%s:%s" % (c, tname), _setc(c, val)))
+    # --- each claim altered (type preserved)
+    F += [
+        ("iss:other-known", _setc("iss", ISS2)), ("iss:unknown", _setc("iss", "https://evil.example.com")),
+        ("iss:trailing-slash", _setc("iss", ISS + "/")), ("iss:case", _setc("iss", ISS.upper())),
+        ("iss:own-id", _setc("iss", CLIENT_ID)),
+        ("sub:other", _setc("sub", "mallory")),
+        ("aud:other-only", _setc("aud", ["someone-else"])), ("aud:str-me", _setc("aud", CLIENT_ID)),
+        ("aud:str-other", _setc("aud", "someone-else")), ("aud:prefix", _setc("aud", [CLIENT_ID + "x"])),
+        ("aud:case", _setc("aud", [CLIENT_ID.lower()])),
+        ("aud:two-no-azp", _setc("aud", [CLIENT_ID, "someone-else"])),
+        ("aud:dict-me", _setc("aud", {CLIENT_ID: 1})), ("aud:dict-two", _setc("aud", {CLIENT_ID: 1, "b": 2})),
+        ("aud:nested", _setc("aud", [[CLIENT_ID]])),
+        ("azp:me", _setc("azp", CLIENT_ID)), ("azp:other", _setc("azp", "someone-else")),
+        ("nonce:wrong", _setc("nonce", "not-the-nonce")), ("nonce:other-flow", _setc("nonce", OTHER_NONCE)),
+        ("nonce:prefix", lambda case: case["tok"]["claims"].__setitem__("nonce", NONCE + "x")),
+        ("c_hash:wrong", _setc("c_hash", "AAAAAAAAAAAAAAAAAAAAAA")), ("at_hash:wrong", _setc("at_hash", "AAAAAAAAAAAAAAAAAAAAAA")),
+        ("acr:any", _setc("acr", "0")), ("auth_time:str", _setc("auth_time", "1699999990")),
+        ("amr:str", _setc("amr", "pwd")),
+    ]
+
+    def two_aud(azp):
+        def f(case):
+            case["tok"]["claims"]["aud"] = [CLIENT_ID, "someone-else"]
+            case["tok"]["claims"]["azp"] = azp
+        return f
+    F += [("aud:two-azp-me", two_aud(CLIENT_ID)), ("aud:two-azp-other", two_aud("someone-else")),
+          ("aud:two-azp-outside", two_aud("third-party")), ("aud:two-azp-null", two_aud(None))]
+
+    def other_only_azp_me(case):
+        case["tok"]["claims"]["aud"] = ["someone-else"]
+        case["tok"]["claims"]["azp"] = CLIENT_ID
+    F.append(("aud:other-azp-me", other_only_azp_me))
+
+    def hash_bits_wrong(claim, key):
+        def f(case):
+            v = case["ctx"].get(key)
+            if v:
+                case["tok"]["claims"][claim] = left_hash_ref(v, 512)
+        return f
+    F += [("c_hash:sha512", hash_bits_wrong("c_hash", "code")), ("at_hash:sha512", hash_bits_wrong("at_hash", "access_token"))]
+
+    def swap_hashes(case):
+        c = case["tok"]["claims"]
+        if "c_hash" in c and "at_hash" in c:
+            c["c_hash"], c["at_hash"] = c["at_hash"], c["c_hash"]
+        elif "c_hash" in c:
+            c["at_hash"] = c.pop("c_hash")
+        elif "at_hash" in c:
+            c["c_hash"] = c.pop("at_hash")
+    F.append(("hash:swapped", swap_hashes))
+
+    # --- time windows: every boundary, minus one / exactly / plus one
+    def at_time(claim, f_off, as_str=False):
+        def f(case):
+            sk = case["cfg"]["skew"]
+            v = case["now"] + f_off(sk)
+            case["tok"]["claims"][claim] = str(v) if as_str else v
+        return f
+    for d in (-1, 0, 1):
+        F.append(("exp:boundary%+d" % d, at_time("exp", lambda sk, d=d: -sk + d)))
+        F.append(("exp:boundary-str%+d" % d, at_time("exp", lambda sk, d=d: -sk + d, True)))
+        F.append(("iat:future%+d" % d, at_time("iat", lambda sk, d=d: sk + d)))
+        F.append(("iat:stale%+d" % d, at_time("iat", lambda sk, d=d: -sk - STORAGE + d)))
+
+    def exp_before_iat(case):
+        case["tok"]["claims"]["exp"] = case["now"] - 1
+        case["tok"]["claims"]["iat"] = case["now"]
+    F += [("exp:long-past", _setc("exp", 1)), ("exp:negative", _setc("exp", -5)), ("exp:before-iat", exp_before_iat),
+          ("exp:spaces-str", lambda case: case["tok"]["claims"].__setitem__("exp", " %d " % (case["now"] + 300))),
+          ("exp:underscore-str", lambda case: case["tok"]["claims"].__setitem__("exp", "1_800_000_000")),
+          ("exp:plus-str", lambda case: case["tok"]["claims"].__setitem__("exp", "+%d" % (case["now"] + 300))),
+          ("exp:hex-str", _setc("exp", "0x7fffffff")), ("exp:float-str", _setc("exp", "1800000000.0")),
+          ("iat:far-future", lambda case: case["tok"]["claims"].__setitem__("iat", case["now"] + 100000))]
+
+    # --- header and signature
+    def sigfault(kind):
+        def f(case):
+            case["tok"]["sigfault"] = kind
+        return f
+    F += [
+        ("alg:none-unsigned", _resign("none", None, None)),
+        ("alg:none-keep-hash", _resign("none", None, None, rehash=False)),
+        ("alg:None", _resign("None", None, None)), ("alg:NONE", _resign("NONE", None, None)),
+        ("alg:HS256-client-secret", _resign("HS256", "secret", None)),
+        ("alg:HS384-client-secret", _resign("HS384", "secret", None)),
+        ("alg:HS256-rsa-public-key-as-secret", _resign("HS256", "pub_as_hmac", None)),
+        ("alg:HS256-rsa-public-key-as-secret-kid", _resign("HS256", "pub_as_hmac", "r1")),
+        ("alg:HS256-other-secret", _resign("HS256", "other_secret", None)),
+        ("alg:HS256-secret-kid-r1", _resign("HS256", "secret", "r1")),
+        ("alg:RS256-iss", _resign("RS256", "iss_rsa1", "r1")), ("alg:RS256-iss-key2", _resign("RS256", "iss_rsa2", "r2")),
+        ("alg:ES256-iss", _resign("ES256", "iss_ec", "e1")),
+        ("alg:PS256-iss", _resign("PS256", "iss_rsa1", "r1")), ("alg:RS384-iss", _resign("RS384", "iss_rsa1", "r1")),
+        ("key:foreign-rsa-same-kid", _resign("RS256", "foreign_rsa", "r1")),
+        ("key:foreign-ec-same-kid", _resign("ES256", "foreign_ec", "e1")),
+        ("key:foreign-rsa-no-kid", _resign("RS256", "foreign_rsa", None)),
+        ("key:other-issuer-key", _resign("RS256", "iss2_rsa", "o1")),
+        ("key:other-issuer-ec-no-kid", _resign("ES256", "iss2_ec", None)),
+        ("kid:missing-rsa", _resign("RS256", "iss_rsa1", None)), ("kid:missing-ec", _resign("ES256", "iss_ec", None)),
+        ("kid:unknown", _resign("RS256", "iss_rsa1", "nope")), ("kid:other-key", _resign("RS256", "iss_rsa1", "r2")),
+        ("kid:empty", _resign("RS256", "iss_rsa1", "")), ("kid:ec-kid-on-rsa", _resign("RS256", "iss_rsa1", "e1")),
+        ("sig:flipped", sigfault("flip")), ("sig:empty", sigfault("empty")),
+    ]
+
+    def other_issuer_whole(case):      # a genuine token of another registered issuer
+        case["tok"].update(alg="RS256", signer="iss2_rsa", kid="o1")
+        case["tok"]["claims"]["iss"] = ISS2
+        set_hashes(case)
+    F.append(("token-of-other-issuer", other_issuer_whole))
+
+    # --- the accompanying message
+    def forged(case):
+        case["ctx"]["forged"] = {"iss": ISS, "sub": "admin", "aud": [CLIENT_ID], "exp": case["now"] + 9999,
+                                 "iat": case["now"], "nonce": NONCE}
+    F.append(("forged-verified-parameter", forged))
+
+    def forged_no_token(case):
+        forged(case)
+        case["ctx"]["drop_id_token"] = True
+    F.append(("forged-verified-parameter-without-id-token", forged_no_token))
+    if path in ("msg_authz", "svc_authz"):
+        F += [("resp-iss:right", lambda case: case["ctx"].__setitem__("resp_iss", ISS)),
+              ("resp-iss:wrong", lambda case: case["ctx"].__setitem__("resp_iss", ISS2)),
+              ("resp-client_id:right", lambda case: case["ctx"].__setitem__("resp_client_id", CLIENT_ID)),
+              ("resp-client_id:wrong", lambda case: case["ctx"].__setitem__("resp_client_id", "someone-else"))]
+    return F
+
+
+def make_case(path, setting, delivery, fault_name, fault_fn, now=T0):
+    case = base_case(path, setting, delivery, now)
+    case["fault"] = fault_name
+    case["delivery"] = delivery
+    if fault_fn:
+        fault_fn(case)
+    return case
+
+
+def resolve(case, nonce, other_nonce):
+    """Replace the nonce markers by the values of the started flow(s)."""
+    def sub(v):
+        if isinstance(v, str):
+            return v.replace(NONCE, nonce).replace(OTHER_NONCE, other_nonce)
+        if isinstance(v, list):
+            return [sub(x) for x in v]
+        if isinstance(v, dict):
+            return {k: sub(x) for k, x in v.items()}
+        return v
+    case["tok"]["claims"] = sub(case["tok"]["claims"])
+    if case["ctx"].get("forged"):
+        case["ctx"]["forged"] = sub(case["ctx"]["forged"])
+    case["sent_nonce"] = nonce
+    return case
+
+
+# ---------------------------------------------------------------- the oracle (OIDC Core 3.1.3.7 as restated by C08)
+def _as_int(v):
+    """lenient on representation (a decimal string is a number), strict on meaning"""
+    if isinstance(v, bool):
+        return None
+    if isinstance(v, int):
+        return v
+    if isinstance(v, str):
+        try:
+            return int(v)
+        except ValueError:
+            return None
+    return None
+
+
+def oracle_c08(case, expected_alg, sent_nonce):
+    """Independent validator. Returns the list of clauses of C08 this token violates (empty = valid token).
+    expected_alg: the signing algorithm the RP is configured to expect (None = no expectation configured)."""
+    tok, ctx, cfg, now = case["tok"], case["ctx"], case["cfg"], case["now"]
+    c = tok["claims"]
+    bad = []
+    alg, signer = tok["alg"], tok["signer"]
+    from_authz = case["path"] in ("msg_authz", "svc_authz")
+    # (1) signature under a key of the expected issuer, permitted algorithm, none only if explicitly allowed
+    if alg == "none":
+        if not (cfg["allow_none"] or expected_alg == "none"):
+            bad.append("alg-none-not-allowed")
+    else:
+        fam = alg[:2]
+        good_key = (not tok.get("sigfault")) and (
+            (fam in ("RS", "PS") and signer in ("iss_rsa1", "iss_rsa2")) or
+            (fam == "ES" and signer == "iss_ec") or
+            (fam == "HS" and signer == "secret"))
+        if alg not in ("RS256", "RS384", "RS512", "PS256", "PS384", "PS512", "ES256", "HS256", "HS384", "HS512"):
+            good_key = False
+        if not good_key:
+            bad.append("signature-not-by-issuer-key")
+        if expected_alg is not None and alg != expected_alg:
+            bad.append("alg-not-the-expected-one")
+    # (2) names the issuer
+    if c.get("iss") != ISS:
+        bad.append("iss")
+    # (3) audience / azp
+    aud = c.get("aud")
+    if isinstance(aud, str):
+        aud = [aud]
+    if not (isinstance(aud, list) and all(isinstance(x, str) for x in aud) and CLIENT_ID in aud):
+        bad.append("aud")
+    else:
+        if "azp" in c or len(aud) > 1:
+            if c.get("azp") != CLIENT_ID:
+                bad.append("azp")
+    # (4) time
+    exp, iat = _as_int(c.get("exp")), _as_int(c.get("iat"))
+    if exp is None or exp < now - cfg["skew"]:
+        bad.append("expired")
+    if iat is None or iat > now + cfg["skew"]:
+        bad.append("issued-in-future")
+    # (5) nonce
+    if sent_nonce is not None and c.get("nonce") != sent_nonce:
+        bad.append("nonce")
+    # (6) c_hash / at_hash when delivered with a code / access token from the authorization endpoint
+    if from_authz:
+        for claim, val in (("c_hash", ctx.get("code")), ("at_hash", ctx.get("access_token"))):
+            if val:
+                if alg[-3:] in ("256", "384", "512"):
+                    ok = c.get(claim) == left_hash_ref(val, int(alg[-3:]))
+                else:   # no hash is defined for an unsigned token: accept any of the three as "matching"
+                    ok = c.get(claim) in [left_hash_ref(val, b) for b in (256, 384, 512)]
+                if not ok:
+                    bad.append(claim)
+    # (7) basic well-formedness of what is returned as verified
+    if not isinstance(c.get("sub"), str) or not c.get("sub"):
+        bad.append("sub")
+    return bad
